@@ -207,8 +207,31 @@ int32_t chooseSkeSigAlgTls12(ssl_t *ssl, sslIdentity_t *id)
     {
         if (ssl->peerSigAlg != 0)
         {
-            /* Got signature_algorithms in ClientHello. */
-            sigAlgMask = ssl->peerSigAlg;
+            /* Got signature_algorithms in ClientHello: sign with one of
+               those that are also on our own list. Choosing from
+               everything the client offered let a server configured,
+               say, without SHA-1 sign with it. (ssl->hashSigAlg is not
+               reliable for this: it falls back to SHA-1 when the shared
+               set is empty.) */
+            const sslKeySelectInfo_t *ks = &ssl->sec.keySelect;
+            psSize_t i;
+
+            sigAlgMask = 0;
+            for (i = 0; i < ks->peerSigAlgsLen; i++)
+            {
+                if (findFromUint16Array(ssl->supportedSigAlgs,
+                                ssl->supportedSigAlgsLen,
+                                ks->peerSigAlgs[i]) != PS_FAILURE)
+                {
+                    sigAlgMask |= HASH_SIG_MASK(ks->peerSigAlgs[i] >> 8,
+                            ks->peerSigAlgs[i] & 0xff);
+                }
+            }
+            if (sigAlgMask == 0)
+            {
+                psTraceInfo("No signature algorithm in common for SKE\n");
+                return PS_UNSUPPORTED_FAIL;
+            }
         }
         else
         {
